@@ -220,6 +220,18 @@ def execute(scn):
         return kw
 
     def uid_of(op, step):
+        # ids are deliberately *related* to each other: URL forms that differ by a trailing slash, by one more
+        # path segment, by a shared prefix - distinct ids all the same, each must select its own class only
+        form = op["a"] % 5
+        n = step
+        if form == 0:
+            return "http://dsim.test/meta/%d" % n
+        if form == 1:
+            return "http://dsim.test/meta/%d/" % max(0, n - 1)
+        if form == 2:
+            return "http://dsim.test/meta/%d/schema" % max(0, n - 2)
+        if form == 3:
+            return "http://dsim.test/meta/%dx%d" % (max(0, n - 1), n % 10)
         return "urn:dsim:c20:meta-%d-%d" % (step, op["a"] % 97)
 
     def make_class(op, step, version):
